@@ -37,10 +37,10 @@ CHECK = {
   'instances': {
     'quick': [
       T('int', 'base', 'type=int'),
-      T('float', 'base', 'type=float'),
+      T('float', 'base', 'type=float', 'pairsepvals=4'),
       T('string', 'base', 'type=string'),
       T('int-asan', 'asan', 'type=int'),
-      T('float-asan', 'asan', 'type=float', 'sinks=str,mem', 'repeatvals=4'),
+      T('float-asan', 'asan', 'type=float', 'sinks=str,mem', 'repeatvals=4', 'pairsepvals=3'),
       T('string-asan', 'asan', 'type=string'),
     ],
     'thorough': [
